@@ -87,6 +87,20 @@ def run(ck, F):
         'checked on the tables and on the instantiated project/decompose bodies, the set operations by evaluating '
         'the operator templates and `implies` bit-wise (E1 on single bits, lifted by bit-parallelism).')
     S = Sym(F, opaque=contracts.default_opaque(F), max_depth=24)
+    # the name of a basic specifier / qualifier is a Logogram, and names are looked up by the identity of that Logogram: equal
+    # spellings are one object only if every statically allocated word lives in the reserved-word table, and equality of the value
+    # classes looks at the spelling alone
+    import words as _words
+    import eqrule as _eqrule
+    _W, _kw, _strays = _words.static_words_outside_table(F)
+    R_sw = ck.rule('C10.static-words-in-the-table', 'every statically allocated word is an element of the reserved-word table: the rows of the '
+                   'basis tables name their word through that table, so the name a client builds from the same spelling is the same '
+                   'Logogram and maps to the row\'s bit (a row built from a word object of its own is refused by name)', floor=1)
+    ck.check(R_sw, 'known_words', not _strays, f'object(s) of {contracts.short(_W)} outside {_kw["q"]}: ' + '; '.join(f'{w} [{l}]' for w, l in _strays[:4]),
+             loc=(_strays[0][1] if _strays else _kw['loc']))
+    _eqrule.check_equalities(ck, F, 'C10')
+    if _strays:
+        return          # the tables cannot be read as rows of reserved words: reported above
     tables = {}
     for g in F.globals:
         if g['name'] in ('std_specifiers', 'std_qualifiers'):
